@@ -288,9 +288,15 @@ class Opts:
     #                      next observation, d = after d further completions, INF = never seen before the result
     multi: bool = False  # more than one job may finish between two observations
     probe: bool = False  # mirror loop only: after every observation also read has_errored / all_failed / done of every node
+    # two-submission histories (real asynchronous loop only): a first submission of the same workflow into the same
+    # cache root has completed every job ("all") or only the jobs of the first half of the nodes ("partial");
+    # the history that is scripted and checked is the SECOND submission, made with `rerun` / `propagate_rerun`
+    prior: str = "none"
+    rerun: bool = False
+    propagate: bool = True
 
     def key(self):
-        return (self.spec, self.variant, self.loop, self.realise, self.k, self.fail, tuple(self.vis), self.multi, self.probe)
+        return (self.spec, self.variant, self.loop, self.realise, self.k, self.fail, tuple(self.vis), self.multi, self.probe, self.prior, self.rerun, self.propagate)
 
     def asdict(self):
         return attrs.asdict(self)
@@ -317,6 +323,9 @@ class ScriptedWorker(Worker):
     _plugin_name = "vf-scripted"
 
     async def run(self, job, rerun=False):
+        hit = self.ctl.cache_hit(job, rerun)
+        if hit is not None:
+            return hit
         fut = self.ctl.submit(job)
         return await fut
 
@@ -434,6 +443,7 @@ class Controller:
             "stalled": False,
             "error_message": None,
             "nodes": {},
+            "handed": [],  # two-submission histories: [label, rerun flag the loop passed to the worker, result was stored]
         }
         self.pending = []  # labels handed to the worker, not finished yet (ghost `executing`)
         self.jobobj = {}
@@ -497,8 +507,23 @@ class Controller:
             self.futs.setdefault(lb, []).append(f)
             return f
 
+    def cache_hit(self, job, rerun):
+        """what Job.run does first: without `rerun` a stored, un-errored result is returned and nothing executes"""
+        if self.o.prior == "none":
+            return None
+        from pydra.engine.result import load_result
+
+        res = load_result(job.checksum, [job.cache_root])
+        self.h["handed"].append([label(job), bool(rerun), res is not None and not res.errored])
+        if not rerun and res is not None and not res.errored:
+            self.ev("cached", label(job))
+            return res
+        return None
+
     def _make_visible(self, lb):
         job = self.jobobj[lb]
+        if self.o.prior != "none" and job.cache_dir.exists():
+            shutil.rmtree(job.cache_dir)  # Job._populate_filesystem: a re-execution first clears the old directory
         # what SoftFileLock.acquire leaves on disk while the job runs
         fd = os.open(job.lockfile, os.O_WRONLY | os.O_CREAT | os.O_TRUNC, 0o644)
         os.close(fd)
@@ -677,17 +702,23 @@ def drive(opts: Opts, script: Script):
     ctl = None
     try:
         W = build(spec)
+        first = None
+        if opts.prior != "none":
+            first = _first_submission(opts, spec, W, root)
         Workflow.clear_cache()
         worker = ScriptedWorker() if opts.variant == "async" else ScriptedSyncWorker()
         kw = {} if opts.k is None else {"max_concurrent": opts.k}
+        if opts.prior != "none":
+            kw["propagate_rerun"] = opts.propagate
         sub = _scripted_submitter_class()(cache_root=root, worker=worker, **kw)
         sub.run_start_time = datetime.now()  # as Submitter.__call__ does
         ctl = Controller(opts, script, sub, spec)
         worker.ctl = ctl
         wf_job = Job(W(a=1), submitter=sub, name="main")
         h = ctl.h
+        h["first"] = first
         if opts.loop == "real":
-            graph = _drive_real(opts, ctl, sub, wf_job)
+            graph = _drive_real(opts, ctl, sub, wf_job, rerun=opts.rerun)
         else:
             graph = _drive_mirror(opts, ctl, sub, wf_job)
         if graph is not None:
@@ -713,6 +744,42 @@ def drive(opts: Opts, script: Script):
             os.unlink(str(root) + ".fail")
         except OSError:
             pass
+
+
+def _first_submission(opts, spec, W, root):
+    """a complete, failure-free earlier submission of the same workflow into `root` (real asynchronous loop, no
+    limit, fixed completion order); for prior="partial" the results of the second half of the nodes are removed
+    again, as if only a sub-workflow had been run before.  -> {label: has a stored result}"""
+    from pydra.engine.job import Job
+    from pydra.engine.workflow import Workflow
+
+    if opts.loop != "real" or opts.variant != "async":
+        raise CheckerError("two-submission histories are driven with the real asynchronous loop only")
+    Workflow.clear_cache()
+    o1 = Opts(opts.spec, loop="real")
+    worker = ScriptedWorker()
+    sub = _scripted_submitter_class()(cache_root=root, worker=worker)
+    ctl = Controller(o1, Script(), sub, spec)
+    worker.ctl = ctl
+    wf_job = Job(W(a=1), submitter=sub, name="main")
+    try:
+        graph = _drive_real(o1, ctl, sub, wf_job)
+    finally:
+        ctl.cancel()
+        _CTL_REF[0] = None
+    h1 = ctl.h
+    _snapshot_nodes(h1, graph)
+    if h1["raised"] is not None or h1["stalled"] or not all_jobs_done(h1, spec):
+        raise CheckerError(f"the first submission of {opts.spec} did not complete: {h1['raised']}")
+    stored = {lb: True for lb in ctl.jobobj}
+    if opts.prior == "partial":
+        names = [nd.name for nd in spec.nodes]
+        dropped = set(names[max(1, len(names) // 2) :])
+        for lb, job in ctl.jobobj.items():
+            if job.name in dropped:
+                shutil.rmtree(job.cache_dir, ignore_errors=True)
+                stored[lb] = False
+    return stored
 
 
 def _guard(ctl, where, fn):
@@ -810,7 +877,7 @@ def _drive_mirror(opts, ctl, sub, wf_job):
             return g
 
 
-def _drive_real(opts, ctl, sub, wf_job):
+def _drive_real(opts, ctl, sub, wf_job, rerun=False):
     """the real Submitter.expand_workflow / expand_workflow_async with the scripted worker"""
     _install_sleep_proxy()
     _CTL_REF[0] = ctl
@@ -826,7 +893,7 @@ def _drive_real(opts, ctl, sub, wf_job):
         return wf_job.return_values.get("exec_graph")
 
     try:
-        sub.loop.run_until_complete(asyncio.wait_for(sub.expand_workflow_async(wf_job, False), timeout=60))
+        sub.loop.run_until_complete(asyncio.wait_for(sub.expand_workflow_async(wf_job, rerun), timeout=60))
     except CheckerError:
         raise
     except (asyncio.TimeoutError, TimeoutError):
@@ -1102,6 +1169,28 @@ def c16_problems(h, k):
     return bad
 
 
+def second_submission_problems(h, opts):
+    """second submission of a workflow (C16): the limit also bounds the jobs in flight when results of an earlier
+    submission are on disk, whatever `rerun` says; and -- counting executions -- a job whose result is stored is not
+    executed unless the rerun request reaches it (rerun and propagate_rerun).
+    Whether a rerun request re-executes EVERY stored job is not C16's business: returned as statistics only."""
+    bad, stats = [], {}
+    for klass, text, detail in c16_problems(h, opts.k):
+        bad.append(("in-flight-limit", text))
+    stored = h.get("first") or {}
+    effective = bool(opts.rerun and opts.propagate)
+    executed = [e[1] for e in h["events"] if e[0] == "submit"]
+    if not effective:
+        for lb in executed:
+            if stored.get(lb):
+                bad.append(("executed-although-cached", f"{lb} was executed again although its result was stored and no rerun was requested for it (rerun={opts.rerun}, propagate_rerun={opts.propagate})"))
+    fin = _finished(h)
+    stats["second submissions that did not complete (not part of C16)"] = 1 if (h["raised"] is not None or h["stalled"]) else 0
+    stats["second submissions in which a job without stored result was not executed (not part of C16)"] = 1 if any(not had and fin.get(lb) != "ok" for lb, had in stored.items()) else 0
+    stats["second submissions with a rerun request reaching every job in which a stored job was NOT re-executed (not part of C16)"] = 1 if effective and any(had and fin.get(lb) != "ok" for lb, had in stored.items()) else 0
+    return bad, stats
+
+
 def max_executing(h):
     m = 0
     for i, e, executing, finished in timeline(h):
@@ -1133,6 +1222,7 @@ def compact(h):
         "stalled": h["stalled"],
         "error_message": (h.get("error_message") or "")[:400] or None,
         "from_job": (h.get("from_job") or "")[:400] or None,
+        "first": h.get("first"),
     }
 
 
@@ -1155,6 +1245,18 @@ def evaluate(pid, h, spec, opts):
         extra["histories with >=1 failing job"] = 1 if failed else 0
         extra["histories in which a job fails after it was seen running"] = 1 if any(e[0] == "finish" and e[2] == "fail" and e[3] for e in h["events"]) else 0
         return out, bool(failed), extra
+    if pid == "C16" and opts.prior != "none":
+        probs, st2 = second_submission_problems(h, opts)
+        probs = _dedup(probs)
+        extra.update(st2)
+        out, seen = [], set()
+        for k, t in probs:
+            if k not in seen:  # one report per kind and history; no known class applies to these histories
+                seen.add(k)
+                out.append((None, f"second submission (prior={opts.prior}, rerun={opts.rerun}, propagate_rerun={opts.propagate}, k={opts.k}): {k}: {t}"))
+        extra["second submissions in which at least one job is executed"] = 1 if any(e[0] == "submit" for e in h["events"]) else 0
+        extra["second submissions that reach the limit"] = 1 if max_executing(h) >= opts.k else 0
+        return out, len(h.get("first") or {}) > opts.k, extra
     if pid == "C16":
         probs = c16_problems(h, opts.k)
         out, seen = [], set()
